@@ -46,7 +46,7 @@ def table_kinds(ctx: Ctx) -> Dict[Tuple[str, str], List[Tuple[FuncInfo, Event, b
     SimRunner fields and the function name for local tables."""
     out: Dict[Tuple[str, str], List[Tuple[FuncInfo, Event, bool]]] = {}
     typer = typer_of(ctx.prog)
-    from ..flow import spliced
+    from ..flow import final as spliced
     for fi in analysis_units(ctx.prog):
         s = spliced(ctx.prog, fi)
         for e in s.of_kind("store"):
@@ -90,7 +90,7 @@ def _compare_sites(ctx: Ctx, c: Collector) -> None:
     typer = typer_of(prog)
     kinds = table_kinds(ctx)
     nsites = 0
-    from ..flow import spliced, spliceable
+    from ..flow import final as spliced, spliceable
     for fi in analysis_units(prog):
         if fi.cls is not None and fi.cls.qualname == TI:
             continue
